@@ -78,6 +78,29 @@ def r_tol_index(rep, f):
                 return ids
             if loops and i.get("k") == "Path" and any(i.get("id") in loop_index_ids(lp) for lp in loops):
                 rep.ok("R-TOL-INDEX", key, "indexed by the component loop variable", nontrivial=False)
+            elif not loops and i.get("k") == "Path" and i.get("id") in {p_.get("id") for p_ in b.get("params", [])}:
+                # a helper that computes one component's scale: the index is its parameter, the obligation moves to the callers
+                pos = [p_.get("id") for p_ in b.get("params", [])].index(i.get("id"))
+                bad_call, n_calls = None, 0
+                for cb in f.body_list:
+                    for c, cparents in tast.find_with_parents(cb["body"], lambda z: z.get("k") in ("Call", "MethodCall") and (z.get("def") or "") == b["def"]):
+                        args = ([c["recv"]] if c.get("k") == "MethodCall" else []) + list(c["args"])
+                        if pos >= len(args):
+                            continue
+                        n_calls += 1
+                        a_ = args[pos]
+                        cl = [p_ for p_ in cparents if p_.get("k") == "For" or (p_.get("k") == "Closure" and p_.get("params"))]
+                        okc = a_.get("k") == "Path" and (any(a_.get("id") in loop_index_ids(lp) for lp in cl)
+                                                          or a_.get("id") in {p_.get("id") for p_ in cb.get("params", [])})
+                        if not okc and bad_call is None:
+                            bad_call = (c, cb["def"])
+                if bad_call:
+                    rep.violation("R-TOL-INDEX", key, "the helper indexes a tolerance by its parameter `%s`, and %s passes `%s` there, which is not the induction variable of an enclosing component loop"
+                                  % (tast.render(i), bad_call[1], tast.render((([bad_call[0]["recv"]] if bad_call[0].get("k") == "MethodCall" else []) + list(bad_call[0]["args"]))[pos])[:30]), bad_call[0].get("sp"))
+                elif n_calls == 0:
+                    rep.inconc("R-TOL-INDEX", key, "a tolerance is indexed by the parameter `%s` of a helper that no analysed function calls" % tast.render(i), ix.get("sp"))
+                else:
+                    rep.ok("R-TOL-INDEX", key, "indexed by the helper's parameter; all %d call site(s) pass their component loop variable" % n_calls, nontrivial=False)
             elif not loops and i.get("k") == "Lit":
                 # a representative component outside any loop (Radau: Newton tolerance from rtol[0], as in RADAU5)
                 rep.ok("R-TOL-INDEX", key, "fixed component %s outside component loops" % i.get("v"), nontrivial=False)
